@@ -200,6 +200,23 @@ def lol_part(report, tier, seed):
     from tensora import Tensor
 
     n = 0
+    # what a read-back returns belongs to the caller: changing it must not change what the tensor reads back as later
+    for fmt, dims, data in [("ds", (2, 3), {(0, 1): 1.0, (1, 2): 0.0}), ("s", (4,), {(2,): 5.0}), ("", (), {(): 2.0}), ("dd", (2, 2), {(0, 0): 1.0})]:
+        t = Tensor.from_dok(data, dimensions=dims, format=fmt)
+        for kw in (dict(), dict(explicit_zeros=True)):
+            n += 1
+            try:
+                first = t.to_dok(**kw)
+                snapshot = dict(first)
+                first.clear()
+                first[(9,) * len(dims)] = 123.0
+                again = t.to_dok(**kw)
+                items = dict(t.items())
+            except Exception as e:  # noqa: BLE001
+                report.violation(f"readback-aliasing:{fmt}:{sorted(kw)}", dict(what=f"read-back raised {type(e).__name__}: {e}", format=fmt), True)
+                continue
+            if again != snapshot or {k: v for k, v in items.items() if v != 0 or kw} != {k: v for k, v in snapshot.items() if v != 0 or kw}:
+                report.violation(f"readback-aliasing:{fmt}:{sorted(kw)}", dict(what=f"to_dok({kw}) returned {snapshot}; after the caller changed that dict the tensor reads back as {again} (items {items})", format=fmt, dimensions=dims), True)
     rng = random.Random(seed)
     for dims in [(), (0,), (1,), (3,), (2, 2), (2, 3), (1, 2, 2)]:
         def build(ds):
